@@ -61,6 +61,18 @@ class G:
             self.funcs.append("def %s() { %s; %s(); %s }" % (g, self.mark(), f, self.mark()))
             self.note("frame:two-deep")
             return "%s()" % g
+        if k < 0.96:
+            # the statement runs while a function guard is evaluated (dispatch asks the guard before entering the body)
+            f = "tq%d" % self.n
+            h = "tr%d" % self.n
+            self.funcs.append("def %s(x) { %s; %s; true }" % (h, self.mark(), stmt))
+            self.funcs.append("def %s(x) : %s(x) { %s }" % (f, h, self.mark()))
+            if r.random() < 0.5:
+                self.funcs.append("def %s(x) { %s }" % (f, self.mark()))
+                self.note("frame:guard-overloaded")
+            else:
+                self.note("frame:guard")
+            return "%s(1)" % f
         self.note("frame:loop")
         return "for (var fi%d = 0; fi%d < 2; ++fi%d) { %s; %s }" % (self.n, self.n, self.n, self.mark(), stmt)
 
